@@ -186,6 +186,21 @@ class TrackedArray(np.ndarray):
         if isinstance(obj, type(self)):
             obj._dirty_hash = True
 
+    @property
+    def _dirty_hash(self) -> bool:
+        return self.__dict__.get("_dirty", True)
+
+    @_dirty_hash.setter
+    def _dirty_hash(self, value: bool):
+        self.__dict__["_dirty"] = value
+        if value:
+            # if we are a view of another tracked array a write
+            # to us also alters the array we are a view of
+            base = self.base
+            while isinstance(base, TrackedArray):
+                base.__dict__["_dirty"] = True
+                base = base.base
+
     def __array_wrap__(self, out_arr, context=None, *args, **kwargs):
         """
         Return a numpy scalar if array is 0d.
@@ -214,7 +229,13 @@ class TrackedArray(np.ndarray):
           A hash of the array contents.
         """
         # repeat the bookkeeping to get a contiguous array
-        if not self._dirty_hash and hasattr(self, "_hashed"):
+        # a view of another tracked array can be altered through
+        # that array without noticing so never trust a stored value
+        if (
+            not self._dirty_hash
+            and hasattr(self, "_hashed")
+            and not isinstance(self.base, TrackedArray)
+        ):
             # we have a valid hash without recomputing.
             return self._hashed
 
